@@ -348,6 +348,27 @@ class Engine:
     def e_GeneratorExp(self, node, st):
         return V.vconc(GenExp(node, st.cur))
 
+    def e_ListComp(self, node, st):
+        if len(node.generators) != 1 or node.generators[0].ifs or node.generators[0].is_async:
+            raise OutOfSubset("list comprehension form")
+        gen = node.generators[0]
+        sub = st.sub({}, st.cur)
+        itv = self.eval(gen.iter, sub)
+        items = self.static_items(itv, sub)
+        if items is None:
+            raise OutOfSubset("list comprehension over a symbolic-length iterable")
+        out = []
+        for item in items:
+            self.bind_target(gen.target, item, sub)
+            out.append(self.as_sym(self.eval(node.elt, sub)))
+        st.pc = sub.pc
+        if not out:
+            return Val(SeqS(None), ([], z3.IntVal(0)))
+        sh = out[0].shape
+        for o in out[1:]:
+            sh = V.join_shape(sh, o.shape)
+        return V.seq_of([V.coerce(o, sh) for o in out], sh)
+
     def e_IfExp(self, node, st):
         c = self.truth(self.eval(node.test, st), st)
         cs = z3.simplify(c)
